@@ -618,6 +618,8 @@ def obligations(tier):
            harness='C07_rp66var', func='units_code', timeout=150 if q else 900, parts=5),
         Ob('rp66_ASCII_symbolic_bytes', 'ch', 'every byte string of length <= %d (1-, 2- and 4-byte UVARI length prefixes)' % (8 if q else 10), var, harness='C07_rp66var', func='ascii_code', timeout=150 if q else 900, parts=9 if q else 11),
         Ob('rp66_OBNAME_OBJREF_symbolic_bytes', 'ch', 'every byte string of length <= %d' % (6 if q else 9), var, harness='C07_rp66var', func='obname_objref', timeout=200 if q else 1500, parts=7 if q else 10),
+        Ob('lis_text_code_65_read', 'ch', 'LIS code 65 text of declared length 0..8 after 0..2 other bytes, from a file (exactly that many bytes consumed: two sentinels follow) and from bytes; no length -> refused',
+           ['LIS.core.RepCode.readRepCode/readBytes (code 65)', 'LIS.core.File.FileRead.readLrBytes'], harness='C07_lis65', func='text_code_65', timeout=150 if q else 600),
         Ob('rp66_length_helpers_at_index', 'ch', 'every byte string of length 2..7, start index 1..3: OBNAME_len / IDENT_len / ORIGIN_len / UVARI_len at index i = at index 0 of the tail', var,
            harness='C07_rp66var', func='len_helpers_at_index', timeout=150 if q else 900, parts=18),
         Ob('rp66_DTIME_symbolic_bytes', 'ch', 'every byte string of length <= 9', var, harness='C07_rp66var', func='dtime', timeout=150 if q else 900, parts=10),
